@@ -7,7 +7,7 @@ ID = "C01"
 CRATE = "c01"
 COQ_DIR = "C01"
 COQ_DEPS = []
-PROFILES = ["debug"]
+PROFILES = ["debug", "release"]
 CORR_IMPORT = "From RlibV Require Import C01.Model C01.Items C01.Spec C01.Corr.\nOpen Scope Z_scope."
 AUDIT_IMPORT = ("From Coq Require Import ZArith List Bool Arith.\nImport ListNotations.\n"
                 "From RlibV Require Import C01.Model C01.Items C01.Spec C01.Laws C01.Corr C01.ProofsCore C01.ProofsTree "
